@@ -255,6 +255,48 @@ def expectedItem (q r : Msg) : Sx :=
 def expected (conv : List (Msg × Msg)) : Sx :=
   .list [.list (.atom "items" :: conv.map fun (q, r) => expectedItem q r), .list [.atom "left", Sx.ofNat 0, Sx.ofNat 0]]
 
+/-! what Analyze must derive from the request target (net/url for the grammar generated) -/
+
+def hexDigit? (x : UInt8) : Option Nat :=
+  if 48 ≤ x ∧ x ≤ 57 then some (x.toNat - 48)
+  else if 97 ≤ x ∧ x ≤ 102 then some (x.toNat - 87)
+  else if 65 ≤ x ∧ x ≤ 70 then some (x.toNat - 55) else none
+
+/-- percent-decoding; in a query component `+` is a space -/
+def pctDecode (plusIsSpace : Bool) : Bytes → Bytes
+  | 37 :: a :: b :: rest =>
+    match hexDigit? a, hexDigit? b with
+    | some x, some y => UInt8.ofNat (16 * x + y) :: pctDecode plusIsSpace rest
+    | _, _ => 37 :: pctDecode plusIsSpace (a :: b :: rest)
+  | c :: rest => (if plusIsSpace && c = 43 then 32 else c) :: pctDecode plusIsSpace rest
+  | [] => []
+
+/-- origin-form, or absolute-form `http://authority/path?query` -/
+def originForm (target : Bytes) : Bytes :=
+  let pre := bytesOfString "http://"
+  if target.take pre.length == pre then (target.drop pre.length).dropWhile (· != 47) else target
+
+def pathOf (target : Bytes) : Bytes := pctDecode false ((originForm target).takeWhile (· != 63))
+
+def rawQuery (target : Bytes) : Bytes := ((originForm target).dropWhile (· != 63)).drop 1
+
+/-- the parameters in order of first occurrence of their key, each with all its values in order -/
+def queryOf (target : Bytes) : List (Bytes × List Bytes) :=
+  let pairs := (Wire.splitOnByte 38 (rawQuery target)).filter (!·.isEmpty) |>.map fun kv =>
+    (pctDecode true (kv.takeWhile (· != 61)), pctDecode true ((kv.dropWhile (· != 61)).drop 1))
+  let keys := (pairs.map (·.1)).eraseDups
+  keys.map fun k => (k, (pairs.filter (·.1 == k)).map (·.2))
+
+def expectedEntry (q r : Msg) : Sx :=
+  let params := (queryOf q.target).mergeSort fun a b => Sx.hexOfBytes a.1 ≤ Sx.hexOfBytes b.1
+  .list [.atom "e", Sx.ofBytes q.method, Sx.ofBytes (pathOf q.target),
+    .list (.atom "q" :: params.map fun (k, vs) => .list [Sx.ofBytes k, match vs with
+      | [v] => Sx.ofBytes v
+      | vs => .list (.atom "l" :: vs.map Sx.ofBytes)]),
+    Sx.ofNat r.status]
+
+def expectedEntries (conv : List (Msg × Msg)) : Sx := .list (conv.map fun (q, r) => expectedEntry q r)
+
 end Spec
 
 end KsVerif.Http
